@@ -39,7 +39,18 @@ def scope_for(p):
         def __init__(self, proc):
             self.calls = {}
             self.cfgs = {}
+            self.mems = {}
+            for a in proc.args:
+                self._mem(getattr(a, "mem", None))
             super().__init__(proc)
+
+        def _mem(self, m):
+            # memory classes defined by the program itself (not in exo.libs.memories) are printed by their name()
+            try:
+                if m is not None:
+                    self.mems[m.name()] = m
+            except Exception:
+                pass
 
         def do_s(self, s):
             if isinstance(s, LoopIR.Call):
@@ -48,6 +59,9 @@ def scope_for(p):
                 sub = Walk(s.f)
                 self.calls.update(sub.calls)
                 self.cfgs.update(sub.cfgs)
+                self.mems.update(sub.mems)
+            elif isinstance(s, LoopIR.Alloc):
+                self._mem(s.mem)
             elif isinstance(s, LoopIR.WriteConfig):
                 self.cfgs[s.config.name()] = s.config
             super().do_s(s)
@@ -61,6 +75,8 @@ def scope_for(p):
     for nm, f in w.calls.items():
         scope[nm] = Procedure(f)
     scope.update(w.cfgs)
+    for nm, m in w.mems.items():
+        scope.setdefault(nm, m)
     return scope
 
 
